@@ -171,6 +171,8 @@ Definition classified_map_ranges : list (site5 * string) :=
     "IterFuncs: hands the entries to a callback in map order; its callers are classified in iter_callers");
    (("internal/resolver", "resolve.go", "*ResolvedProgram.IterVars", 1%Z, "for name, info := range r.resolver.varInfo[funcName] { f(name, info) }"),
     "IterVars: the same");
+   (("internal/resolver", "resolve.go", "*resolver.numVars", 1%Z, "for _, infos := range r.varInfo { n += len(infos) }"),
+    "numVars (the pass limit 2*numVars of C16's repair): a sum over the tables, commutative");
    (("internal/resolver", "resolve.go", "Resolve", 1%Z, "for name := range config.Funcs { nativeNames = append(nativeNames, name) }"),
     "collects the names of the Go functions into a slice that is sorted before use");
    (("internal/resolver", "resolve.go", "Resolve", 2%Z, "for name := range callGraph.funcs { if _, ok := called[name]; !ok { uncalled = append(uncalled, name) } }"),
